@@ -9,8 +9,10 @@ import (
 	"encoding/json"
 	"errors"
 	"fmt"
+	"github.com/libp2p/go-libp2p/core/crypto"
 	"io"
 	"math/rand"
+	"strings"
 	"time"
 
 	"github.com/ipfs/go-cid"
@@ -640,17 +642,31 @@ func (a *streamArtefact) read(r io.Reader) (ok bool, got int, why string, err er
 		}
 	}()
 	switch a.kind {
-	case "token":
+	case "token", "token-generic", "token-dagcbor", "token-dagjson":
 		t := a.toks[0]
 		var tk token.Token
-		var id cid.Cid
-		if t.typ == "dlg" {
+		id := t.id
+		switch {
+		case a.kind == "token" && t.typ == "dlg":
 			tk, id, err = delegation.FromSealedReader(r)
-		} else {
+		case a.kind == "token":
 			tk, id, err = invocation.FromSealedReader(r)
+		case a.kind == "token-generic":
+			tk, id, err = token.FromSealedReader(r)
+		case a.kind == "token-dagcbor" && t.typ == "dlg":
+			tk, err = delegation.FromDagCborReader(r)
+		case a.kind == "token-dagcbor":
+			tk, err = invocation.FromDagCborReader(r)
+		case a.kind == "token-dagjson" && t.typ == "dlg":
+			tk, err = delegation.FromDagJsonReader(r)
+		default:
+			tk, err = invocation.FromDagJsonReader(r)
 		}
 		if err != nil {
 			return false, 0, "", err
+		}
+		if tk == nil || isNilToken(tk) {
+			return true, 1, "nil token without an error", nil
 		}
 		_, f, ferr := fieldsOf(tk)
 		if ferr != nil {
@@ -701,14 +717,15 @@ func (a *streamArtefact) plain() []byte {
 func newStreamArtefact(w *world, kind string, b64 bool, blocks, pad int) (*streamArtefact, error) {
 	a := &streamArtefact{kind: kind, b64: b64}
 	n := blocks
-	if kind == "token" {
+	isTok := strings.HasPrefix(kind, "token")
+	if isTok {
 		n = 1
 	}
 	toks, err := makeTokens(w, n, pad)
 	if err != nil {
 		return nil, err
 	}
-	if kind == "token" && blocks%2 == 0 {
+	if isTok && blocks%2 == 0 {
 		// an invocation instead of a delegation
 		t2, err := makeTokens(w, 2, pad)
 		if err != nil {
@@ -717,8 +734,16 @@ func newStreamArtefact(w *world, kind string, b64 bool, blocks, pad int) (*strea
 		toks = t2[1:]
 	}
 	a.toks = toks
-	switch kind {
-	case "token":
+	switch {
+	case kind == "token-dagjson":
+		type jsonEncoder interface {
+			ToDagJson(crypto.PrivKey) ([]byte, error)
+		}
+		if a.data, err = toks[0].tok.(jsonEncoder).ToDagJson(toks[0].priv.priv); err != nil {
+			return nil, err
+		}
+		a.bounds = []int{0, len(a.data)}
+	case isTok:
 		a.data = toks[0].sealed
 		a.bounds = []int{0, len(a.data)}
 	default:
@@ -785,9 +810,23 @@ func (a *streamArtefact) writeTo(w io.Writer) (id cid.Cid, err error) {
 		}
 	}()
 	switch a.kind {
-	case "token":
+	case "token", "token-generic":
 		t := a.toks[0]
 		return t.tok.ToSealedWriter(w, t.priv.priv)
+	case "token-dagcbor", "token-dagjson":
+		t := a.toks[0]
+		type streamEncoder interface {
+			ToDagCborWriter(io.Writer, crypto.PrivKey) error
+			ToDagJsonWriter(io.Writer, crypto.PrivKey) error
+		}
+		enc, ok := t.tok.(streamEncoder)
+		if !ok {
+			return cid.Undef, fmt.Errorf("token type %T has no streaming encoders", t.tok)
+		}
+		if a.kind == "token-dagcbor" {
+			return cid.Undef, enc.ToDagCborWriter(w, t.priv.priv)
+		}
+		return cid.Undef, enc.ToDagJsonWriter(w, t.priv.priv)
 	}
 	cw := container.NewWriter()
 	for _, t := range a.toks {
@@ -815,142 +854,157 @@ func init() {
 			if err := json.Unmarshal(raw, &c); err != nil {
 				return err
 			}
-			key := fmt.Sprintf("%s/%v/%d", c.A.Kind, c.A.B64, c.A.Blocks)
-			a, ok := arts[key]
-			if !ok {
-				var err error
-				if a, err = newStreamArtefact(w, c.A.Kind, c.A.B64 && c.A.Kind != "token", c.A.Blocks, int(envSeed())%3); err != nil {
-					return err
-				}
-				arts[key] = a
+			kinds := []string{c.A.Kind}
+			if c.A.Kind == "token" {
+				// the same behaviour through every streaming API of a single token
+				kinds = []string{"token", "token-generic", "token-dagcbor", "token-dagjson"}
 			}
-			rep.Evaluations++
-			if c.Side == "write" {
-				// count the underlying writes, then fail the chosen one
-				cnt := &faultWriter{}
-				id0, err := a.writeTo(cnt)
-				if err != nil {
-					rep.violation(json.RawMessage(raw), "written", err.Error(), "streaming write without fault failed")
-					continue
-				}
-				W := cnt.calls
-				k := 0
-				if c.K != 0 && c.K <= c.W {
-					k = c.K
-					if c.K == c.W || k > W {
-						k = W
+			for _, akind := range kinds {
+				key := fmt.Sprintf("%s/%v/%d", akind, c.A.B64, c.A.Blocks)
+				a, ok := arts[key]
+				if !ok {
+					var err error
+					if a, err = newStreamArtefact(w, akind, c.A.B64 && c.A.Kind != "token", c.A.Blocks, int(envSeed())%3); err != nil {
+						return err
 					}
-					rep.nontrivial(fmt.Sprintf("%s/w%d", key, k))
+					arts[key] = a
 				}
-				fw := &faultWriter{failAt: k, oneShot: c.W%2 == 0}
-				id, err := a.writeTo(fw)
-				// the container writers iterate a Go map: the number of underlying writes can differ from
-				// run to run; make sure the fault really fired (else aim at the last write of this run)
-				for tries := 0; k != 0 && err == nil && fw.calls < k && tries < 8; tries++ {
-					k = fw.calls
-					fw = &faultWriter{failAt: k, oneShot: c.W%2 == 0}
-					id, err = a.writeTo(fw)
-				}
-				if k != 0 && err == nil && fw.calls < k {
-					continue
-				}
-				rep.sample(map[string]any{"case": json.RawMessage(raw), "underlying_writes": W, "failed_write": k, "error": fmt.Sprint(err)})
-				if k == 0 {
+				rep.Evaluations++
+				if c.Side == "write" {
+					// count the underlying writes, then fail the chosen one
+					cnt := &faultWriter{}
+					id0, err := a.writeTo(cnt)
 					if err != nil {
-						rep.violation(json.RawMessage(raw), "success", err.Error(), "streaming write without fault failed")
-					} else if a.kind == "token" {
-						// signatures may be randomized: the CID must be the content address of what was written, the
-						// bytes must unseal to the same token, and be identical for deterministic schemes
-						_ = id0
-						t := a.toks[0]
-						want, _ := cid.V1Builder{Codec: cid.DagCBOR, MhType: multihash.SHA2_256}.Sum(fw.buf.Bytes())
-						back, id2, uerr := token.FromSealed(fw.buf.Bytes())
-						switch {
-						case id != want:
-							rep.violation(json.RawMessage(raw), want.String(), id.String(), "the CID returned by ToSealedWriter is not the CID of the bytes written")
-						case uerr != nil || id2 != id:
-							rep.violation(json.RawMessage(raw), "unseals", fmt.Sprint(uerr), "the bytes written by ToSealedWriter do not unseal / have another CID")
-						default:
-							_, f, _ := fieldsOf(back)
-							if why := sameFields(f, t.fields); why != "" {
-								rep.violation(json.RawMessage(raw), "the same token", why, "ToSealedWriter wrote another token than ToSealed")
-							} else if (t.priv.alg == "ed25519" || t.priv.alg == "rsa") && !bytes.Equal(fw.buf.Bytes(), a.data) {
-								rep.violation(json.RawMessage(raw), "identical bytes (deterministic signature)", "different bytes", "ToSealedWriter differs from ToSealed")
+						rep.violation(json.RawMessage(raw), "written", err.Error(), "streaming write without fault failed")
+						continue
+					}
+					W := cnt.calls
+					k := 0
+					if c.K != 0 && c.K <= c.W {
+						k = c.K
+						if c.K == c.W || k > W {
+							k = W
+						}
+						rep.nontrivial(fmt.Sprintf("%s/w%d", key, k))
+					}
+					fw := &faultWriter{failAt: k, oneShot: c.W%2 == 0}
+					id, err := a.writeTo(fw)
+					// the container writers iterate a Go map: the number of underlying writes can differ from
+					// run to run; make sure the fault really fired (else aim at the last write of this run)
+					for tries := 0; k != 0 && err == nil && fw.calls < k && tries < 8; tries++ {
+						k = fw.calls
+						fw = &faultWriter{failAt: k, oneShot: c.W%2 == 0}
+						id, err = a.writeTo(fw)
+					}
+					if k != 0 && err == nil && fw.calls < k {
+						continue
+					}
+					rep.sample(map[string]any{"case": json.RawMessage(raw), "underlying_writes": W, "failed_write": k, "error": fmt.Sprint(err)})
+					if k == 0 {
+						if err != nil {
+							rep.violation(json.RawMessage(raw), "success", err.Error(), "streaming write without fault failed")
+						} else if a.kind == "token-dagcbor" || a.kind == "token-dagjson" {
+							t := a.toks[0]
+							g, _ := unsealBoth(t.typ, strings.TrimPrefix(a.kind, "token-"), fw.buf.Bytes())
+							if g.err != nil {
+								rep.violation(json.RawMessage(raw), "decodable output", g.err.Error(), "the output of the streaming encoder ("+a.kind+") cannot be decoded")
+							} else if _, f, _ := fieldsOf(g.tok); sameFields(f, t.fields) != "" {
+								rep.violation(json.RawMessage(raw), "the same token", sameFields(f, t.fields), "the streaming encoder ("+a.kind+") wrote another token than the buffered one")
+							}
+						} else if a.kind == "token" || a.kind == "token-generic" {
+							// signatures may be randomized: the CID must be the content address of what was written, the
+							// bytes must unseal to the same token, and be identical for deterministic schemes
+							_ = id0
+							t := a.toks[0]
+							want, _ := cid.V1Builder{Codec: cid.DagCBOR, MhType: multihash.SHA2_256}.Sum(fw.buf.Bytes())
+							back, id2, uerr := token.FromSealed(fw.buf.Bytes())
+							switch {
+							case id != want:
+								rep.violation(json.RawMessage(raw), want.String(), id.String(), "the CID returned by ToSealedWriter is not the CID of the bytes written")
+							case uerr != nil || id2 != id:
+								rep.violation(json.RawMessage(raw), "unseals", fmt.Sprint(uerr), "the bytes written by ToSealedWriter do not unseal / have another CID")
+							default:
+								_, f, _ := fieldsOf(back)
+								if why := sameFields(f, t.fields); why != "" {
+									rep.violation(json.RawMessage(raw), "the same token", why, "ToSealedWriter wrote another token than ToSealed")
+								} else if (t.priv.alg == "ed25519" || t.priv.alg == "rsa") && !bytes.Equal(fw.buf.Bytes(), a.data) {
+									rep.violation(json.RawMessage(raw), "identical bytes (deterministic signature)", "different bytes", "ToSealedWriter differs from ToSealed")
+								}
+							}
+						} else if !strings.HasPrefix(a.kind, "token") {
+							// the container writer iterates a map: compare what the bytes decode to
+							rd, rerr := readContainer(fw.buf.Bytes(), a.kind, a.b64, "bytes", nil)
+							if rerr != nil {
+								rep.violation(json.RawMessage(raw), "a readable container", rerr.Error(), "the streaming writer's output cannot be read back")
+							} else if why := sameSet(rd, a.toks); why != "" {
+								rep.violation(json.RawMessage(raw), "the tokens added", why, "the streaming writer's output differs from what was added")
 							}
 						}
-					} else if a.kind != "token" {
-						// the container writer iterates a map: compare what the bytes decode to
-						rd, rerr := readContainer(fw.buf.Bytes(), a.kind, a.b64, "bytes", nil)
-						if rerr != nil {
-							rep.violation(json.RawMessage(raw), "a readable container", rerr.Error(), "the streaming writer's output cannot be read back")
-						} else if why := sameSet(rd, a.toks); why != "" {
-							rep.violation(json.RawMessage(raw), "the tokens added", why, "the streaming writer's output differs from what was added")
-						}
+					} else if err == nil {
+						rep.violation(json.RawMessage(raw), "an error", fmt.Sprintf("success (cid %v) although underlying write %d of %d failed", id, k, W),
+							"a failed underlying write was reported as success")
 					}
-				} else if err == nil {
-					rep.violation(json.RawMessage(raw), "an error", fmt.Sprintf("success (cid %v) although underlying write %d of %d failed", id, k, W),
-						"a failed underlying write was reported as success")
-				}
-				continue
-			}
-			// reader side
-			units := len(a.bounds) - 1
-			if c.F.Kind != "none" && c.F.Unit > units+1 {
-				skipped++
-				continue
-			}
-			at, exact := -1, true
-			if c.F.Kind != "none" {
-				var d int
-				if c.F.Unit == units+1 {
-					d = len(a.plain())
-				} else if c.F.Where == "start" {
-					d = a.bounds[c.F.Unit-1]
-				} else {
-					d = (a.bounds[c.F.Unit-1] + a.bounds[c.F.Unit]) / 2
-					if d == a.bounds[c.F.Unit-1] {
-						d++
-					}
-				}
-				at, exact = a.encOffset(d)
-				if c.F.Kind == "eof" && c.F.Where == "start" && !exact {
-					skipped++ // a cut exactly at this unit boundary does not exist in the base64 text
 					continue
 				}
-			}
-			want := c.Res
-			if c.F.Kind != "none" {
-				rep.nontrivial(fmt.Sprintf("%s/%s/%d/%s", key, c.F.Kind, c.F.Unit, c.F.Where))
-			}
-			fr := &faultReader{data: a.data, at: at, kind: c.F.Kind, shape: c.F.Shape, chunk: c.Ch, rng: rng}
-			if c.F.Kind == "none" {
-				fr.at = -1
-			}
-			ok, got, why, err := a.read(fr)
-			rep.sample(map[string]any{"case": json.RawMessage(raw), "offset": at, "result_ok": ok, "tokens": got, "error": fmt.Sprint(err)})
-			if err != nil && len(err.Error()) > 5 && err.Error()[:5] == "panic" {
-				rep.violation(json.RawMessage(raw), want, err.Error(), "a streaming reader panicked")
-				continue
-			}
-			switch want {
-			case "all":
-				if !ok {
-					rep.violation(json.RawMessage(raw), "the tokens of the buffered decode", fmt.Sprint(err), "streaming read without fault failed (chunking "+c.Ch+")")
-				} else if got != len(a.toks) || why != "" {
-					rep.violation(json.RawMessage(raw), "the tokens of the buffered decode", fmt.Sprintf("%d tokens %s", got, why), "streaming read differs from the buffered decode")
+				// reader side
+				units := len(a.bounds) - 1
+				if c.F.Kind != "none" && c.F.Unit > units+1 {
+					skipped++
+					continue
 				}
-			case "err":
-				if ok {
-					rep.violation(json.RawMessage(raw), "an error", fmt.Sprintf("%d tokens returned", got),
-						fmt.Sprintf("a stream with a fault (%s at offset %d of %d) was read without error", c.F.Kind, at, len(a.data)))
+				at, exact := -1, true
+				if c.F.Kind != "none" {
+					var d int
+					if c.F.Unit == units+1 {
+						d = len(a.plain())
+					} else if c.F.Where == "start" {
+						d = a.bounds[c.F.Unit-1]
+					} else {
+						d = (a.bounds[c.F.Unit-1] + a.bounds[c.F.Unit]) / 2
+						if d == a.bounds[c.F.Unit-1] {
+							d++
+						}
+					}
+					at, exact = a.encOffset(d)
+					if c.F.Kind == "eof" && c.F.Where == "start" && !exact {
+						skipped++ // a cut exactly at this unit boundary does not exist in the base64 text
+						continue
+					}
 				}
-			case "prefix":
-				if ok && (got != c.F.Unit-2 || why != "") {
-					rep.violation(json.RawMessage(raw), fmt.Sprintf("the %d blocks before the cut", c.F.Unit-2), fmt.Sprintf("%d tokens %s", got, why), "a CAR cut between two blocks yields something else than the blocks before the cut")
+				want := c.Res
+				if c.F.Kind != "none" {
+					rep.nontrivial(fmt.Sprintf("%s/%s/%d/%s", key, c.F.Kind, c.F.Unit, c.F.Where))
 				}
-			case "open":
-				if ok && got != 0 {
-					rep.violation(json.RawMessage(raw), "no tokens or an error", fmt.Sprintf("%d tokens", got), "a CAR cut right after its header yields tokens")
+				fr := &faultReader{data: a.data, at: at, kind: c.F.Kind, shape: c.F.Shape, chunk: c.Ch, rng: rng}
+				if c.F.Kind == "none" {
+					fr.at = -1
+				}
+				ok, got, why, err := a.read(fr)
+				rep.sample(map[string]any{"case": json.RawMessage(raw), "offset": at, "result_ok": ok, "tokens": got, "error": fmt.Sprint(err)})
+				if err != nil && len(err.Error()) > 5 && err.Error()[:5] == "panic" {
+					rep.violation(json.RawMessage(raw), want, err.Error(), "a streaming reader panicked")
+					continue
+				}
+				switch want {
+				case "all":
+					if !ok {
+						rep.violation(json.RawMessage(raw), "the tokens of the buffered decode", fmt.Sprint(err), "streaming read without fault failed (chunking "+c.Ch+")")
+					} else if got != len(a.toks) || why != "" {
+						rep.violation(json.RawMessage(raw), "the tokens of the buffered decode", fmt.Sprintf("%d tokens %s", got, why), "streaming read differs from the buffered decode")
+					}
+				case "err":
+					if ok {
+						rep.violation(json.RawMessage(raw), "an error", fmt.Sprintf("%d tokens returned", got),
+							fmt.Sprintf("a stream with a fault (%s at offset %d of %d) was read without error", c.F.Kind, at, len(a.data)))
+					}
+				case "prefix":
+					if ok && (got != c.F.Unit-2 || why != "") {
+						rep.violation(json.RawMessage(raw), fmt.Sprintf("the %d blocks before the cut", c.F.Unit-2), fmt.Sprintf("%d tokens %s", got, why), "a CAR cut between two blocks yields something else than the blocks before the cut")
+					}
+				case "open":
+					if ok && got != 0 {
+						rep.violation(json.RawMessage(raw), "no tokens or an error", fmt.Sprintf("%d tokens", got), "a CAR cut right after its header yields tokens")
+					}
 				}
 			}
 		}
@@ -967,7 +1021,7 @@ func init() {
 			b64    bool
 			blocks int
 		}
-		specs := []spec{{"token", false, 1}, {"token", false, 2}, {"cbor", false, 2}, {"cbor", true, 2}, {"car", false, 2}, {"car", true, 2}}
+		specs := []spec{{"token", false, 1}, {"token", false, 2}, {"token-generic", false, 1}, {"token-dagcbor", false, 2}, {"token-dagjson", false, 1}, {"token-dagjson", false, 2}, {"cbor", false, 2}, {"cbor", true, 2}, {"car", false, 2}, {"car", true, 2}}
 		if n <= 0 {
 			specs = append(specs, spec{"car", false, 3}, spec{"car", true, 3}, spec{"cbor", true, 3})
 		}
@@ -1031,7 +1085,7 @@ func init() {
 							}
 						}
 						pn := rerr != nil && len(rerr.Error()) > 5 && rerr.Error()[:5] == "panic"
-						emit(map[string]any{"ev": "ReadFault", "art": s.kind, "b64": s.b64, "blocks": len(a.toks), "units": len(a.bounds) - 1, "off": off, "len": len(a.data),
+						emit(map[string]any{"ev": "ReadFault", "art": strings.SplitN(s.kind, "-", 2)[0], "api": s.kind, "b64": s.b64, "blocks": len(a.toks), "units": len(a.bounds) - 1, "off": off, "len": len(a.data),
 							"kind": kind, "class": class, "res": res, "panic": pn})
 					}
 				}
@@ -1047,7 +1101,7 @@ func init() {
 						if werr == nil && fw.calls < k {
 							continue // this run needed fewer writes (map iteration order): the fault never fired
 						}
-						emit(map[string]any{"ev": "WriteFault", "art": s.kind, "b64": s.b64, "writes": fw.calls, "k": k, "oneshot": one, "failed": werr != nil})
+						emit(map[string]any{"ev": "WriteFault", "art": strings.SplitN(s.kind, "-", 2)[0], "api": s.kind, "b64": s.b64, "writes": fw.calls, "k": k, "oneshot": one, "failed": werr != nil})
 					}
 				}
 			}
